@@ -1,5 +1,5 @@
 From GD Require Import C06.Convert C01.Field C01.Read C01.Inst C16.Limits C01.Exec.
 Require Import ExtrOcamlBasic.
 Extraction Language OCaml.
-Extraction "model.ml" x_impl_read x_spec_window x_spec_val x_uncovered x_wfb x_spf x_eof
+Extraction "model.ml" mk_variant x_impl_read x_spec_window x_spec_val x_uncovered x_wfb x_spf x_eof
   x_impl_eof x_impl_bof x_impl_nframes x_spec_eof_report x_spec_bof x_spec_nframes x_is_real x_noclampb x_nophaseb.
